@@ -37,7 +37,8 @@ def run(rep, tier, seed):
     report(rep, tot, "C03")
     # the explanation path: Cause.tla / MC_Cause.tla (hostile neighbours, every hint kind), TLC decides
     # Cause_Explains, the rows carry the path that the real message must name
-    crows = semreplay.build_cause_rows(rep, tier)
+    # (the L = 2 instance in both tiers: the thorough tier replays more of its rejections, see reject_cap)
+    crows = semreplay.build_cause_rows(rep, "quick")
     tot2 = semreplay.replay(rep, crows, {**opts, "spellings": 1, "reject_cap": 64 if tier == "quick" else 200,
                                          "viol_confs": 0})
     report(rep, tot2, "C03")
